@@ -488,10 +488,25 @@ Definition finish (root : node) (s : lstate) : outcome :=
   {| o_failed := ls_hard s; o_lerrors := ls_errors s; o_resolved := r' |}.
 
 (* ---- the scripted subgraph: pointwise oracle + fault map (C07) ---- *)
+(* "the selected data path holds an explicit null / a value of the wrong kind": the whole body is
+   {"data": <shape>} (with or without an errors entry, status 200 or 500) *)
+Inductive shape :=
+| ShEntNull      (* {"_entities": null} *)
+| ShEntObj       (* {"_entities": {}}    an object instead of the list *)
+| ShEntStr       (* {"_entities": "x"} *)
+| ShDataEmpty    (* {}                   the path is missing *)
+| ShDataStr      (* "x"                  data itself of the wrong kind *)
+| ShDataNum      (* 1 *)
+| ShDataArr.     (* [] *)
+(* ... or `_entities` has the right length and every ITEM is of the wrong kind *)
+Inductive itemkind := IkNum | IkStr | IkList.
+
 Inductive fault :=
 | FtTransport | FtStatusEmpty | FtStatusText | FtStatusErrors | FtEmpty | FtNonJSON | FtTruncated | FtNaNBody
 | FtErrorsNoData | FtErrorsNullData | FtNullData | FtCountLess | FtCountMore
-| FtStatusWithData | FtNullEntities | FtNaNData.
+| FtStatusWithData | FtNullEntities | FtNaNData
+| FtShape (sh : shape) (with_errors st500 : bool)
+| FtItems (ik : itemkind) (with_errors st500 : bool).
 
 Definition k_message : bytes := [109;101;115;115;97;103;101].
 Definition boom : json := JObj [(k_message, JStr [98;111;111;109])].
@@ -531,8 +546,35 @@ Definition on_body (g : json -> json) (r : response) : response :=
 Definition mk_response (st : N) (b : body) (r : response) : response :=
   {| rs_err := false; rs_status := st; rs_body := b; rs_cc := rs_cc r |}.
 
+Definition b_x : bytes := [120].
+Definition b_one : bytes := [49].
+Definition shape_data (sh : shape) : json :=
+  match sh with
+  | ShEntNull => JObj [(k_entities, JNull)]
+  | ShEntObj => JObj [(k_entities, JObj [])]
+  | ShEntStr => JObj [(k_entities, JStr b_x)]
+  | ShDataEmpty => JObj []
+  | ShDataStr => JStr b_x
+  | ShDataNum => JNum b_one
+  | ShDataArr => JArr []
+  end.
+Definition item_of (ik : itemkind) : json :=
+  match ik with IkNum => JNum b_one | IkStr => JStr b_x | IkList => JArr [] end.
+Definition st_of (st500 : bool) : N := if st500 then 500 else 200.
+Definition boom_member (with_errors : bool) : list (bytes * json) :=
+  if with_errors then [(k_errors, JArr [boom])] else [].
+Definition entities_count (j : json) : nat :=
+  match get_loc [PName k_data; PName k_entities] j with Some (JArr l) => length l | _ => O end.
+
 Definition apply_fault (k : fault) (r : response) : response :=
   match k with
+  | FtShape sh we s5 => mk_response (st_of s5) (BJson (JObj ((k_data, shape_data sh) :: boom_member we))) r
+  | FtItems ik we s5 =>
+    match rs_body r with
+    | BJson j => mk_response (st_of s5)
+                   (BJson (JObj ((k_data, JObj [(k_entities, JArr (repeat (item_of ik) (entities_count j)))]) :: boom_member we))) r
+    | _ => r
+    end
   | FtTransport => {| rs_err := true; rs_status := 0; rs_body := BEmpty; rs_cc := [] |}
   | FtStatusEmpty => mk_response 500 BEmpty r
   | FtStatusText => mk_response 503 BInvalid r
